@@ -22,6 +22,9 @@ pub const ACCOUNTS: &[(u64, &str)] = &[
     (102, "bob"),
     (103, "carol"),
     (104, "david"),
+    // proper suffixes of "alice" / "carol": used for the key-alias probes
+    (105, "ice"),
+    (106, "rol"),
     (110, "liquidator"),
     (111, "pauser"),
     (120, "stranger"),
@@ -30,8 +33,13 @@ pub const ACCOUNTS: &[(u64, &str)] = &[
 ];
 /// address used for id 0 (not a contract, owns nothing)
 pub const NOBODY: &str = "nocontract";
-pub const LEDGER_IDS: [u64; 14] = [0, 1, 2, 3, 100, 101, 102, 103, 104, 110, 111, 120, 121, 130];
-pub const ALLOW_IDS: [u64; 5] = [101, 102, 103, 104, 110];
+pub const LEDGER_IDS: [u64; 16] = [0, 1, 2, 3, 100, 101, 102, 103, 104, 105, 106, 110, 111, 120, 121, 130];
+pub const ALLOW_IDS: [u64; 7] = [101, 102, 103, 104, 105, 106, 110];
+pub const ICE: u64 = 105;
+pub const ROL: u64 = 106;
+/// id offsets of the alias strings `addr(v) ++ "al"` and `addr(v) ++ "ca"`
+pub const ALIAS_AL: u64 = 20;
+pub const ALIAS_CA: u64 = 30;
 pub const ORACLE_KEY: &str = "USD";
 
 #[derive(Clone, Debug, PartialEq)]
@@ -46,6 +54,8 @@ pub struct VammInit {
     pub oic: u128,
     pub registered: bool,
     pub opened: bool,
+    /// decimal places of this vAMM (differs from the engine's for the decimals-mismatch vAMM)
+    pub dp: u32,
 }
 
 #[derive(Clone, Debug, PartialEq)]
@@ -119,6 +129,25 @@ pub fn gen_cfg(r: &mut Rng, h: u64, seed: u64, force: Option<(bool, u32)>) -> Cf
             oic,
             registered: skip_reg != Some(i),
             opened: skip_open != Some(i),
+            dp,
+        });
+    }
+    // decimals-mismatch vAMM: one more market whose decimals differ from the engine's, never registered
+    if nv < 3 && r.chance(38, 100) {
+        let dp2: u32 = if dp == 6 { 9 } else { 6 };
+        let d2 = 10u128.pow(dp2);
+        vamms.push(VammInit {
+            q: 1000 * d2,
+            b: 100 * d2,
+            period: 3600,
+            toll: 0,
+            spread: 0,
+            fluct: 0,
+            cap: 0,
+            oic: 0,
+            registered: false,
+            opened: true,
+            dp: dp2,
         });
     }
     let mut funds: Vec<(u64, u128)> = ALLOW_IDS.iter().map(|id| (*id, 5000 * d)).collect();
@@ -181,8 +210,9 @@ impl Cfg {
             self.plr
         );
         for (i, v) in self.vamms.iter().enumerate() {
+            let dp_field = if v.dp != self.dp { format!(":{}", v.dp) } else { String::new() };
             s.push_str(&format!(
-                " v{}.init={}:{}:{}:{}:{}:{}:{}:{}:{}:{}",
+                " v{}.init={}:{}:{}:{}:{}:{}:{}:{}:{}:{}{}",
                 VAMM0 + i as u64,
                 v.q,
                 v.b,
@@ -193,7 +223,8 @@ impl Cfg {
                 v.cap,
                 v.oic,
                 v.registered as u8,
-                v.opened as u8
+                v.opened as u8,
+                dp_field
             ));
         }
         s.push_str(&format!(
@@ -214,7 +245,7 @@ impl Cfg {
         for i in 0..nv {
             let t = m.get(format!("v{}.init", VAMM0 + i as u64).as_str())?;
             let p: Vec<u128> = t.split(':').filter_map(|x| x.parse().ok()).collect();
-            if p.len() != 10 {
+            if p.len() != 10 && p.len() != 11 {
                 return None;
             }
             vamms.push(VammInit {
@@ -228,6 +259,7 @@ impl Cfg {
                 oic: p[7],
                 registered: p[8] == 1,
                 opened: p[9] == 1,
+                dp: if p.len() == 11 { p[10] as u32 } else { g("dp")? as u32 },
             });
         }
         let plist = |k: &str| -> Option<Vec<(u64, u128)>> {
